@@ -98,7 +98,7 @@ FIRST = {
     'k04-C04': 'caught (the same change as h01 / j04, written independently a third time)', 'k05-C05': 'caught', 'k08-C08': 'caught', 'k09-C09': 'caught',
     'k10-C10': 'caught', 'k12-C12': 'caught', 'k14-C14': 'caught (the same change as j14, written independently)', 'k19-C19': 'caught', 'k20-C20': 'caught',
     'k03-C03': 'missed -> new rule AL1 (all_leaves answers yes only after the last element and no exactly on the outcome "not a leaf"; is_leaf is the same decision for one object)',
-    'l01-C01': 'caught', 'l11-C11': 'caught', 'l13-C13': 'caught', 'l16-C16': 'caught', 'l17-C17': 'caught', 'l18-C18': 'caught',
+    'l06-C06': 'caught', 'l01-C01': 'caught', 'l11-C11': 'caught', 'l13-C13': 'caught', 'l16-C16': 'caught', 'l17-C17': 'caught', 'l18-C18': 'caught',
     'l02-C02': 'missed -> T2 plain-sort-always-attempted (nothing in the first stage of the key sort throws, or sets a Python error of its own, before PyList_Sort has run)',
     'l07-C07': 'missed -> W1 reorder-whenever-the-key-orders-differ (from the "differ" outcome of the key-list comparison every path passes the loop with the placing copy)',
     'l15-C15': 'missed -> E1 cleanup-handler-catches-everything (the handler that cleans the guard set is `catch (...)`; a Python exception is not a std::runtime_error)',
